@@ -40,7 +40,7 @@ def freeStr (ts : List String) : String := " free=" ++ dashIfEmpty (joinWith ","
 def rawStr {κ : Type} (m : HMap.Map κ) (show_ : κ → String) : String :=
   let bs := (m.buckets.zipIdx.filter fun (b, _) => b.total ≠ 0 ∨ b.ents.length ≠ 0).map
     fun (b, i) => s!"{i}:{b.ents.length}/{b.total}"
-  s!"raw mask={m.mask} cnt={m.count} lru={dashIfEmpty (joinWith "," (m.lru.map show_))} b={joinWith ";" bs}"
+  s!"raw mask={m.mask} cnt={m.count} lru={if m.lru.isEmpty then "none" else joinWith "," (m.lru.map show_)} b={joinWith ";" bs}"
 
 def iterStr {κ : Type} [DecidableEq κ] (m : HMap.Map κ) (show_ : κ → String) : String :=
   "iter" ++ String.join ((HMap.toList m).map fun (k, v) => s!" {show_ k}={v}")
@@ -297,16 +297,16 @@ def poStep (s : St) (ws : List String) : St × String :=
       let b := (hexArg h).take (natArg k)
       allocOut "strndup" (b.length + 1) (" " ++ hexOut b)
     | ["printf", h, v] => let b := XStr.fmt (hexArg h) (intArg v); allocOut "printf" (b.length + 1) (" " ++ hexOut b)
+    | "copyarr" :: hs =>
+      let v := hs.map hexArg
+      if v.isEmpty then (s, "copyarr nil")
+      else (setMain (Pool.copyArrAlloc p v), "copyarr" ++ String.join (v.map fun t => s!" {hexOut t}") ++ " end")
     | [op, h, c, w] =>
       if op == "split" ∨ op == "psplit" then
         let toks := Pool.splitTokens (hexArg h) (hexArg c) (w == "1")
         (setMain (Pool.splitAlloc p (hexArg h) toks), op ++ String.join (toks.map fun t => s!" {hexOut t}"))
       else if op == "calloc2" then (s, "bad-op")
       else (s, "bad-op")
-    | "copyarr" :: hs =>
-      let v := hs.map hexArg
-      if v.isEmpty then (s, "copyarr nil")
-      else (setMain (Pool.copyArrAlloc p v), "copyarr" ++ String.join (v.map fun t => s!" {hexOut t}") ++ " end")
     | ["child", siz] =>
       let c := if siz == "e" then Pool.createEmpty else Pool.create (natArg siz)
       let (y', h) := Pool.attach y c
